@@ -15,10 +15,11 @@ Section Final.
   Hypothesis Hsym : forall u w, edge_rel g u w -> edge_rel g w u.
   Let n := g_n g.
 
-  Theorem prim_correct :
+  Theorem prim_parts :
     exists f, minimum_spanning_tree g = Ok (f, weight_of f) /\
-              spanning_forest g f /\
-              forall f', spanning_forest g f' -> (weight_of f <= weight_of f')%Z.
+              (forall e, In e f -> gedge g e /\ e_a e < n /\ e_b e < n) /\
+              sf [] f /\
+              (forall e, In e (all_edges g) -> uconn (tle (e_w e) f) (e_a e) (e_b e)).
   Proof.
     unfold minimum_spanning_tree. fold n.
     set (st0 := {| m_vis := repeat false n; m_edgeTo := repeat zero_edge n; m_dist := repeat None n;
@@ -57,7 +58,7 @@ Section Final.
     assert (Rg : forall e, In e T -> gedge g e /\ e_a e < n /\ e_b e < n).
     { intros e He. destruct (p_T1 _ _ _ _ J e He) as [A [B C]]. split; auto.
       apply getb_lt in B, C. rewrite (p_lv _ _ _ _ J) in B, C. auto. }
-    apply (msf_of_parts g W D Hsym f).
+    split; [|split].
     - intros e He. apply Rg. now apply InT.
     - apply forest_sf. apply (forest_perm (rev T)).
       + eapply perm_trans; [apply Permutation_sym, Permutation_rev|exact PT].
@@ -74,6 +75,15 @@ Section Final.
       { eapply uconn_incl; [|exact U]. intros x Hx. unfold tle in *. apply filter_In in Hx.
         apply filter_In. destruct Hx. split; auto. now apply InT. }
       destruct C as [[A B]|[A B]]; rewrite A, B; auto. now apply uc_sym.
+  Qed.
+
+  Theorem prim_correct :
+    exists f, minimum_spanning_tree g = Ok (f, weight_of f) /\
+              spanning_forest g f /\
+              forall f', spanning_forest g f' -> (weight_of f <= weight_of f')%Z.
+  Proof.
+    destruct prim_parts as [f [E [P1 [P2 P3]]]]. exists f. split; auto.
+    now apply (msf_of_parts g W D Hsym f).
   Qed.
 End Final.
 
